@@ -70,7 +70,7 @@ func init() {
 		},
 		build: func(b *bld) {
 			n, k := b.s.N, b.s.Kind
-			A := mkMat(k, n, n, b.s.vals("A"))
+			A := b.inMat(k, n, n, "A")
 			b.mat("A", "input", A)
 			var bv Vector
 			if !b.bit(0) {
@@ -107,7 +107,7 @@ func init() {
 		},
 		build: func(b *bld) {
 			n, k := b.s.N, b.s.Kind
-			a := mkMat(k, n, n, b.s.vals("a"))
+			a := b.inMat(k, n, n, "a")
 			b.mat("a", "input", a)
 			args := []interface{}{cholesky.LDL{Value: b.bit(0)}, cholesky.ForcePD{Value: b.bit(1)}}
 			if b.bit(2) {
@@ -139,7 +139,7 @@ func init() {
 		},
 		build: func(b *bld) {
 			n, k := b.s.N, b.s.Kind
-			a := mkMat(k, n, n, b.s.vals("a"))
+			a := b.inMat(k, n, n, "a")
 			b.mat("a", "input", a)
 			args := []interface{}{determinant.PositiveDefinite{Value: b.bit(0)}, determinant.LogScale{Value: b.bit(1)}}
 			if b.bit(2) {
@@ -170,7 +170,7 @@ func init() {
 		},
 		build: func(b *bld) {
 			n, k := b.s.N, b.s.Kind
-			a := mkMat(k, n, n, b.s.vals("a"))
+			a := b.inMat(k, n, n, "a")
 			b.mat("a", "input", a)
 			args := []interface{}{eigensystem.ComputeEigenvectors{Value: b.bit(0)}, eigensystem.Symmetric{Value: b.bit(1)}}
 			if b.bit(1) {
@@ -233,8 +233,8 @@ func init() {
 		},
 		build: func(b *bld) {
 			n, k := b.s.N, b.s.Kind
-			a := mkMat(k, n, n, b.s.vals("a"))
-			x := mkMat(k, n, n, b.s.vals("x"))
+			a := b.inMat(k, n, n, "a")
+			x := b.inMat(k, n, n, "x")
 			bv := mkVec(k, b.s.vals("b"))
 			b.mat("a", "output-arg", a)
 			b.mat("x", "output-arg", x)
@@ -294,7 +294,7 @@ func init() {
 		},
 		build: func(b *bld) {
 			n, m, k := b.s.N, b.s.M, b.s.Kind
-			a := mkMat(k, n, m, b.s.vals("a"))
+			a := b.inMat(k, n, m, "a")
 			b.mat("a", "input", a)
 			var args []interface{}
 			if b.bit(0) {
@@ -321,7 +321,7 @@ func init() {
 		},
 		build: func(b *bld) {
 			n, k := b.s.N, b.s.Kind
-			a := mkMat(k, n, n, b.s.vals("a"))
+			a := b.inMat(k, n, n, "a")
 			b.mat("a", "input", a)
 			args := []interface{}{hessenbergReduction.ComputeU{Value: b.bit(0)}, hessenbergReduction.SetZero{Value: b.bit(1)}}
 			if b.bit(2) {
@@ -387,7 +387,7 @@ func init() {
 		},
 		build: func(b *bld) {
 			m, n, k := b.s.N, b.s.M, b.s.Kind
-			a := mkMat(k, m, n, b.s.vals("a"))
+			a := b.inMat(k, m, n, "a")
 			b.mat("a", "input", a)
 			args := []interface{}{householderBidiagonalization.ComputeU{Value: b.bit(0)}, householderBidiagonalization.ComputeV{Value: b.bit(1)}}
 			if b.bit(2) {
@@ -425,7 +425,7 @@ func init() {
 		},
 		build: func(b *bld) {
 			n, k := b.s.N, b.s.Kind
-			a := mkMat(k, n, n, b.s.vals("a"))
+			a := b.inMat(k, n, n, "a")
 			b.mat("a", "input", a)
 			args := []interface{}{householderTridiagonalization.ComputeU{Value: b.bit(0)}}
 			if b.bit(1) {
@@ -478,7 +478,7 @@ func init() {
 		},
 		build: func(b *bld) {
 			n, k := b.s.N, b.s.Kind
-			a := mkMat(k, n, n, b.s.vals("matrix"))
+			a := b.inMat(k, n, n, "matrix")
 			b.mat("matrix", "input", a)
 			args := []interface{}{matrixInverse.PositiveDefinite{Value: b.bit(0)}, matrixInverse.UpperTriangular{Value: b.bit(1)}}
 			if b.bit(2) {
@@ -515,7 +515,7 @@ func init() {
 				n := dimOf(r, 1, 3)
 				s := newSpec(kindOf(r, 0, 1), n, n)
 				a := rspd(r, n)
-				if r.Intn(4) == 0 {
+				if r.Intn(8) == 0 {
 					// identity: converges immediately
 					for i := range a {
 						a[i] = 0
@@ -529,7 +529,7 @@ func init() {
 			},
 			build: func(b *bld) {
 				n, k := b.s.N, b.s.Kind
-				a := mkMat(k, n, n, b.s.vals("matrix"))
+				a := b.inMat(k, n, n, "matrix")
 				b.mat("matrix", "input", a)
 				b.run = func() error { _, err := e.f(a); return err }
 			}})
@@ -546,8 +546,8 @@ func init() {
 				pass := 1 << 2
 				r = append(r, o, o|pass)
 				r = append(r, o|pass|1<<3|((1<<14)-1)<<4) // everything top level, H initialised from a
-				r = append(r, o|pass|1<<3|1<<4)            // H, initialised from a
-				r = append(r, o|pass|1<<4)                 // H pre-filled by the caller
+				r = append(r, o|pass|1<<3|1<<4)           // H, initialised from a
+				r = append(r, o|pass|1<<4)                // H pre-filled by the caller
 				for k := 5; k <= 17; k++ {
 					r = append(r, o|pass|1<<uint(k))
 				}
@@ -571,7 +571,7 @@ func init() {
 		},
 		build: func(b *bld) {
 			n, k := b.s.N, b.s.Kind
-			a := mkMat(k, n, n, b.s.vals("a"))
+			a := b.inMat(k, n, n, "a")
 			b.mat("a", "input", a)
 			args := []interface{}{qrAlgorithm.ComputeU{Value: b.bit(0)}, qrAlgorithm.Symmetric{Value: b.bit(1)}}
 			if b.s.int1("eps", 0) == 1 {
@@ -650,7 +650,7 @@ func init() {
 		},
 		build: func(b *bld) {
 			m, n, k := b.s.N, b.s.M, b.s.Kind
-			a := mkMat(k, m, n, b.s.vals("a"))
+			a := b.inMat(k, m, n, "a")
 			b.mat("a", "input", a)
 			args := []interface{}{svd.ComputeU{Value: b.bit(0)}, svd.ComputeV{Value: b.bit(1)}}
 			if b.s.int1("eps", 0) == 1 {
